@@ -169,7 +169,30 @@ func (g *Gen) genArith(p *Prog, ops []string) {
 	switch op {
 	case "add", "sub":
 		var x, y Val
-		if prec > 0 && g.chance(0.6) {
+		if g.chance(0.06) {
+			// cancellation down to below the exponent range: x = a*10^k + r, y = a*10^k with x's exponent a few
+			// digits above MinExp, so the (inexact, non-zero) difference underflows to a signed zero
+			a := g.digitsPattern(2 + g.intn(30))
+			if a[0] == '0' {
+				a = "1" + a[1:]
+			}
+			k := 1 + g.intn(25)
+			r := 1 + g.intn(999)
+			av := digitsToInt(a + strings.Repeat("0", k))
+			xv := new(big.Int).Add(av, big.NewInt(int64(r)))
+			if g.chance(0.3) {
+				xv.Sub(av, big.NewInt(int64(r)))
+			}
+			// value = int * 10^e with the leading digit at exponent MinExp+j
+			j := int64(g.intn(len(a) + k + 2))
+			e := int64(decimal.MinExp) + j - int64(len(a)+k)
+			neg := g.intn(2) == 0
+			x = intToVal(xv, e, neg, uint(g.intn(3)), g.mode())
+			y = intToVal(av, e, neg != (op == "add"), uint(g.intn(3)), g.mode())
+			if x.Exp < int64(decimal.MinExp) || y.Exp < int64(decimal.MinExp) {
+				x, y = g.pairForAdd(int(prec)+1, op == "sub")
+			}
+		} else if prec > 0 && g.chance(0.6) {
 			x, y = g.pairForAdd(int(prec), op == "sub")
 		} else {
 			x = g.any()
@@ -366,6 +389,12 @@ func (g *Gen) genFMA(p *Prog) {
 	case 0:
 		u = g.any()
 	case 1: // u cancels the product exactly or nearly
+		if x.Form == 1 && y.Form == 1 && g.chance(0.3) {
+			// ... with the product a few digits above the bottom of the exponent range: the tiny sum underflows
+			half := int64(decimal.MinExp) / 2
+			x.Exp = half + int64(g.intn(40))
+			y.Exp = int64(decimal.MinExp) - x.Exp + int64(g.intn(len(x.Digits)+len(y.Digits)+3))
+		}
 		if x.Form == 1 && y.Form == 1 && len(x.Digits)+len(y.Digits) < 600 {
 			pr := new(big.Int).Mul(digitsToInt(x.Digits), digitsToInt(y.Digits))
 			e := (x.Exp - int64(len(x.Digits))) + (y.Exp - int64(len(y.Digits)))
@@ -375,7 +404,7 @@ func (g *Gen) genFMA(p *Prog) {
 					pr.SetInt64(1)
 				}
 			}
-			if e > -2147483000 && e < 2147480000 {
+			if e > -2147484400 && e < 2147480000 {
 				u = intToVal(pr, e, x.Neg == y.Neg, uint(g.intn(3)), g.mode())
 				if u.Exp > int64(decimal.MaxExp) || u.Exp < int64(decimal.MinExp) {
 					u = g.any()
